@@ -104,7 +104,17 @@ def deltaOf (s0 s1 : PS NP) : String :=
 def fullState (s : PS NP) : String :=
   ",".intercalate ((allPeers NP).map (descNode s))
 
-structure Acc where
+/-- same state with the peer-indexed functions tabulated (keeps evaluation time linear in the
+    number of ops; extensionally the identity) -/
+def normalize (s : PS NP) : PS NP :=
+  let nd := ((allPeers NP).map s.nodes).toArray
+  let ns := ((allPeers NP).map s.noSlot).toArray
+  let rs := ((allPeers NP).map s.reserved).toArray
+  let fm := ((allPeers NP).map s.fmask).toArray
+  { s with nodes := fun p => nd[p.val]!, noSlot := fun p => ns[p.val]!, reserved := fun p => rs[p.val]!,
+           fmask := fun p => fm[p.val]! }
+
+structure DAcc where
   s : PS NP
   outs : List String      -- per-op records (model)
   specs : List String     -- per-op records (spec: invariant flags forced to ok)
@@ -112,11 +122,11 @@ structure Acc where
   onlySlots : Bool
   stopped : Bool
 
-def runOps (acc : Acc) : List (String × Op NP × List (Msg NP)) → Acc
+def runOps (acc : DAcc) : List (String × Op NP × List (Msg NP)) → DAcc
   | [] => acc
   | (name, op, hint) :: rest =>
     let r := step acc.s op hint
-    let s1 := r.1
+    let s1 := normalize r.1
     let msgs := r.2.1
     let isAdv := match op with | .adv _ _ => true | _ => false
     if !isAdv && msgs != hint then
@@ -125,7 +135,7 @@ def runOps (acc : Acc) : List (String × Op NP × List (Msg NP)) → Acc
       let fl := invFlags s1
       let pre := s!"{showMsgs msgs}{if r.2.2 then "!" else ""} {s1.numIn},{s1.numOut} r{digitsOf s1.reserved} n{digitsOf s1.noSlot} {deltaOf acc.s s1} "
       let bad := fl != "ok"
-      let acc' : Acc :=
+      let acc' : DAcc :=
         { s := s1, outs := acc.outs ++ [pre ++ fl], specs := acc.specs ++ [pre ++ "ok"],
           firstBad := if bad && acc.firstBad.isNone then some name else acc.firstBad,
           onlySlots := acc.onlySlots && (fl.toList.all (fun c => c == 'a' || c == 'b' || c == 'o' || c == 'k')),
